@@ -1664,9 +1664,14 @@ class CodeGenerator(NodeVisitor):
     def visit_Const(self, node: nodes.Const, frame: Frame) -> None:
         val = node.as_const(frame.eval_ctx)
         if isinstance(val, float):
-            self.write(str(val))
+            rv = str(val)
         else:
-            self.write(repr(val))
+            rv = repr(val)
+        # a negative number (for example a folded unary minus) must stay
+        # one operand, "-5 ** x" would be read as "-(5 ** x)" by Python
+        if rv.startswith("-"):
+            rv = f"({rv})"
+        self.write(rv)
 
     def visit_TemplateData(self, node: nodes.TemplateData, frame: Frame) -> None:
         try:
